@@ -160,7 +160,7 @@ pub fn replay(o: &Opts, drv: &mut Driver, rep: &mut Report, lines: &[String]) {
 
 pub fn run(o: &Opts, drv: &mut Driver, rep: &mut Report) {
     let mut cx = new_cx(o, drv, rep);
-    let rounds = (if cx.thorough { 20 } else { 1 }) * cx.scale;
+    let rounds = (if cx.thorough { 8 } else { 1 }) * cx.scale;
     for round in 0..rounds {
         let mut rng = case_rng(o.seed.wrapping_add(round.wrapping_mul(0x9e37_79b9)), "c11");
         cx.eot.clear(); cx.pprf.clear(); cx.ss.clear(); cx.rv.clear();
